@@ -55,6 +55,8 @@ typedef struct {
 typedef struct {
 	uint64_t wseed;
 	uint32_t bs;
+	int comp_id;           /* SQFS_COMP_* */
+	uint32_t comp_flags;   /* strategy / filter selection: per-block searches inside the compressor */
 	int nfiles;
 	wfile_t f[MAXF];
 	uint8_t *blocks[NBLK];
@@ -200,11 +202,24 @@ static void workload_free(workload_t *w)
 static void workload_generate(workload_t *w, uint64_t wseed, int tier)
 {
 	sim_rng_t r;
-	static const uint32_t tl[] = { 1, 7, 100, 1000, 2047, 2048, 3000, 4095 };
+	static const uint32_t tl[] = { 1, 7, 100, 300, 1000, 2048, 3000, 4095 };
 	memset(w, 0, sizeof(*w));
 	w->wseed = wseed;
 	sim_rng_seed(&r, wseed ^ 0xb10cb10cULL);
 	w->bs = sim_rng_below(&r, 5) == 0 ? 8192 : 4096;
+	{
+		static const struct { int id; uint32_t flags; } cc[] = {
+			{ SQFS_COMP_GZIP, 0 }, { SQFS_COMP_GZIP, 0 }, { SQFS_COMP_GZIP, 0 },
+			{ SQFS_COMP_GZIP, SQFS_COMP_FLAG_GZIP_HUFFMAN | SQFS_COMP_FLAG_GZIP_RLE },
+			{ SQFS_COMP_GZIP, SQFS_COMP_FLAG_GZIP_DEFAULT | SQFS_COMP_FLAG_GZIP_FILTERED | SQFS_COMP_FLAG_GZIP_FIXED },
+			{ SQFS_COMP_GZIP, SQFS_COMP_FLAG_GZIP_ALL },
+			{ SQFS_COMP_XZ, 0 }, { SQFS_COMP_XZ, SQFS_COMP_FLAG_XZ_X86 | SQFS_COMP_FLAG_XZ_ARM },
+			{ SQFS_COMP_LZ4, 0 }, { SQFS_COMP_LZ4, SQFS_COMP_FLAG_LZ4_HC }, { SQFS_COMP_ZSTD, 0 },
+		};
+		size_t k = sim_rng_below(&r, sizeof(cc) / sizeof(cc[0]));
+		w->comp_id = cc[k].id;
+		w->comp_flags = cc[k].flags;
+	}
 	for (int i = 0; i < NBLK; i++)
 		w->blocks[i] = __real_calloc(1, w->bs);
 	for (int i = 0; i < NTAIL; i++)
@@ -471,10 +486,10 @@ static void run_one(const workload_t *w, uint64_t mask, const variant_t *v, resu
 	int live[MAXF], nlive = 0, op = 0, rc = 0;
 	memset(inodes, 0, sizeof(inodes));
 
-	sqfs_compressor_config_init(&cfg, SQFS_COMP_GZIP, w->bs, 0);
-	if (sqfs_compressor_create(&cfg, &cmp)) { fprintf(stderr, "no gzip\n"); exit(2); }
-	sqfs_compressor_config_init(&cfg, SQFS_COMP_GZIP, w->bs, SQFS_COMP_FLAG_UNCOMPRESS);
-	if (sqfs_compressor_create(&cfg, &uncmp)) { fprintf(stderr, "no gzip\n"); exit(2); }
+	sqfs_compressor_config_init(&cfg, w->comp_id, w->bs, w->comp_flags);
+	if (sqfs_compressor_create(&cfg, &cmp)) { fprintf(stderr, "compressor %d unavailable\n", w->comp_id); exit(2); }
+	sqfs_compressor_config_init(&cfg, w->comp_id, w->bs, SQFS_COMP_FLAG_UNCOMPRESS);
+	if (sqfs_compressor_create(&cfg, &uncmp)) { fprintf(stderr, "compressor %d unavailable\n", w->comp_id); exit(2); }
 
 	/* allocation faults only inside the component under test: armed after the set-up of the collaborators */
 	long a0 = sim_alloc_count();
@@ -787,7 +802,7 @@ int main(int argc, char **argv)
 	}
 	if (argc >= 3 && !strcmp(argv[1], "show")) {
 		workload_generate(&w, strtoull(argv[2], NULL, 0), argc >= 4 ? atoi(argv[3]) : 0);
-		printf("bs=%u files=%d\n", w.bs, w.nfiles);
+		printf("bs=%u comp=%d flags=%#x files=%d\n", w.bs, w.comp_id, w.comp_flags, w.nfiles);
 		for (int i = 0; i < w.nfiles; i++) {
 			printf(" f%-2d blocks=", i);
 			for (int b = 0; b < w.f[i].nblk; b++) printf("%d", w.f[i].blk[b]);
